@@ -43,8 +43,12 @@ class Program:
         self.dump_s = time.time() - t0
         self.src = SrcInfo(REPO)
         self.fns = []
+        self.static_allocs = {}
         for short in crates:
-            self.fns += parse_mir(open(self.paths[short]).read(), short)
+            txt = open(self.paths[short]).read()
+            self.fns += parse_mir(txt, short)
+            for m in re.finditer(r'^(alloc\d+) \(static: ([\w:]+)', txt, re.M):
+                self.static_allocs[(short, m.group(1))] = m.group(2)
         self.by_short = {}
         self.by_name = {}
         for f in self.fns: self.by_name.setdefault(f.name, f)
@@ -86,6 +90,12 @@ class Program:
         base = fn.name
         # closures share their parent's promoteds? no: each body has its own; names are `<body name>::promoted[n]`
         return self.by_name.get(f'{base}::promoted[{n}]')
+
+    def static_fn(self, crate, alloc):
+        name = self.static_allocs.get((crate, alloc))
+        if name is None: return None
+        c = [f for f in self.fns if f.crate == crate and f.name.startswith('static:') and (f.name[7:] == name or f.name.endswith('::' + name))]
+        return c[0] if len(c) == 1 else None
 
     def closure_fn(self, key, parent=None, nargs=None, names=None):
         c = self.closures.get(key, [])
